@@ -65,10 +65,11 @@ func (c *monC10) After(m *Machine, s *Step) *Violation {
 	if method != configured {
 		// the remember/expire middlewares run before routing and may legitimately touch state
 		_, hadCookie := r.CookBefore["rm"]
-		rememberActs := cfg.Middleware == "remember" && r.UIDBefore() == "" && hadCookie
+		// (with expire in front of remember, an idle session is wiped first and the cookie then re-authenticates it)
+		rememberActs := cfg.Middleware == "remember" && (r.UIDBefore() == "" || cfg.ExpireOutside) && hadCookie
 		sessChanged := fmt.Sprint(r.SessBefore) != fmt.Sprint(r.SessAfter)
 		cookChanged := fmt.Sprint(r.CookBefore) != fmt.Sprint(r.CookAfter)
-		if (sessChanged && cfg.Middleware != "expire" && m.rotationOwner(s) == "") || (cookChanged && !rememberActs) {
+		if (sessChanged && cfg.Middleware != "expire" && !cfg.ExpireOutside && m.rotationOwner(s) == "") || (cookChanged && !rememberActs) {
 			return violation("C10", "wrong-method-changed-state:"+method, "%s /logout (configured %s) changed client state: session %v -> %v cookies %v -> %v", method, configured, r.SessBefore, r.SessAfter, keysOf(r.CookBefore), keysOf(r.CookAfter))
 		}
 		if r.Status != 404 && r.Status != 405 {
@@ -119,7 +120,7 @@ func (c *monC10) After(m *Machine, s *Step) *Violation {
 
 func (c *monC10) End(m *Machine) *Violation { return nil }
 
-var kindsC10 = append(append([]wk{}, worldKinds...), wk{"logout", 14}, wk{"snip:logoutfrom", 22}, wk{"snip:enrol-totp", 2}, wk{"snip:enrol-sms", 2}, wk{"set", 5})
+var kindsC10 = append(append([]wk{}, worldKinds...), wk{"logout", 14}, wk{"snip:logoutfrom", 22}, wk{"snip:idlelogout", 8}, wk{"snip:enrol-totp", 2}, wk{"snip:enrol-sms", 2}, wk{"set", 5})
 
 var profC10 = profile{
 	must: []string{"auth", "logout"}, may: []string{"confirm", "lock", "oauth2", "otp", "recover", "register", "remember"},
@@ -129,6 +130,15 @@ var profC10 = profile{
 		c.LockAfter = rapid.IntRange(3, 6).Draw(t, "lockafter10")
 		if c.Middleware == "remember" && chance(t, "nilstate10", 35) {
 			c.NilEmptyState = true // a session store that answers nil for a browser without session
+		}
+		if c.Middleware == "remember" && chance(t, "expireoutside", 30) {
+			// an application that wants idle expiry and remember-me installs both middlewares, expire first:
+			// whatever the two do to each other, a logout still has to leave nothing behind
+			c.ExpireOutside = true
+			if !c.HasSetup("expire") {
+				c.Setups = append(c.Setups, "expire")
+			}
+			c.ExpireS = pick(t, "expire10", 30, 3600)
 		}
 		for i := range c.Accounts {
 			c.Accounts[i].Locked, c.Accounts[i].Unconfirmed = false, false
